@@ -231,7 +231,7 @@ func GetBuild(cfg BuildCfg) (*Build, error) {
 	m := buildMeta{Cfg: cfg.String(), Sites: ires.Sites, Knobs: ires.KnobsApplied, KnobMiss: ires.KnobsMissing}
 	mb, _ := json.Marshal(m)
 	os.WriteFile(metaPath, mb, 0o644)
-	pruneCache(cacheDir, 14)
+	pruneCache(cacheDir, 48)
 	return &Build{Cfg: cfg, Bin: bin, Sites: ires.Sites, Knobs: ires.KnobsApplied, KnobMiss: ires.KnobsMissing, Secs: time.Since(t0).Seconds()}, nil
 }
 
